@@ -63,6 +63,7 @@ func setup() (*World, *SpecLib) {
 	must(err)
 	w.indexFields()
 	w.buildCallGraph()
+	w.expandPreserves()
 	lib, err := loadSpecLib(filepath.Join(verifDir, "spec"))
 	must(err)
 	return w, lib
